@@ -44,6 +44,6 @@ Run scripts with /venv/bin/python from inside {wt} so that the worktree's flax i
 
 DELIVERABLE (final message): (1) `git -C {wt} diff` output saved as {wt}/patch.diff (unified diff against HEAD, paths relative to the
 repo root, applicable with `git apply`); (2) the demo script path; (3) what you ran to check (a) and the before/after pass counts;
-(4) two or three sentences on what exactly is needed for the violation to manifest. Leave the worktree with your change applied
+(4) two or three sentences on what exactly is needed for the violation to manifest. NEVER use `git stash` (the stash is shared by all worktrees of /repo and other agents work in sibling worktrees): to compare before/after, save your diff to a file and use `git apply -R <file>` / `git apply <file>`. Leave the worktree with your change applied
 and the two files in place; do not commit.
 """)
